@@ -260,6 +260,13 @@ def load_ctokenizer(so):
     return mod.CTokenizer
 
 
+def pure_python_parser():
+    """For the checks about the node / list classes: build trees with the Python tokenizer of the current sources
+    (never with an in-tree _tokenizer extension, which may be stale or absent). Call in the parent before forking."""
+    import mwparserfromhell.parser as P
+    P.use_c = False
+
+
 # --------------------------------------------------------------------------- the check object
 
 class Check:
